@@ -5,7 +5,7 @@ from .. import land, poolx
 
 LEVEL = 'exploration'
 ENGINE = 'SEQ+POOLX'
-TECHNIQUE = 'bounded exhaustive enumeration of pool life-cycle histories (add workers of mixed kinds, run, run again, poison run, restart_workers, kill a worker, stuck worker, SIGSTOPped worker, failing registration, ending by block exit / exception exit / close / terminate) on real thread/process/remote workers against a reference model, plus explicit-state exploration of two consecutive Pool.run calls on one pool with scripted workers'
+TECHNIQUE = 'bounded exhaustive enumeration of pool life-cycle histories (add workers of mixed kinds, run, run again, poison run, run with a close() request refused in a callback, restart_workers, kill a worker, stuck worker, SIGSTOPped worker, failing registration, ending by block exit / exception exit / close / terminate) on real thread/process/remote workers against a reference model, plus explicit-state exploration of two consecutive Pool.run calls on one pool with scripted workers'
 LEVEL_TEXT = ('every history of the bounded alphabet is executed on a real Pool with real workers; oracle: after the ending every process and remote worker is dead and its pid is gone, each run returns exactly the results of its own inputs (or PoolError only when no live worker is left), killed workers do not break later runs, restarted workers work again, a failing registration leaves no process behind; POOLX: all reachable states of run;run on one pool with deaths in the first run')
 LEVEL_NOTE = 'histories are bounded (pool composition x <=2 middle operations x ending); a run submitted to a stuck worker is a user error and is not enumerated; thread workers cannot be killed by a pool, the statement exempts them'
 
